@@ -4,6 +4,7 @@
 //   G <mode> <scale> <xb> <yb> <pk> <pdir> <n>  x X y Y ...     mode 0 = generateYConstraints,
 //                                                               1 = generateXConstraints(useNeighbourLists=false),
 //                                                               2 = generateXConstraints(useNeighbourLists=true)
+//                                                               10,11,12 = the same with every Variable::id == 0
 //   S <n> <m> (desired weight)*n (l r gap)*m     the static vpsc::Solver on hex-float data; prints P finalPositions
 //   M <scale> <xb> <yb> u(4) v(4) p             the small Rectangle methods (getters, overlapX/Y, moveCentreX/Y)
 //   R <third> <scale> <xb> <yb> <pk> <pdir> <nf> f.. <n> x X y Y ...   removeoverlaps(rs, fixed, third)
@@ -83,11 +84,13 @@ int main()
         if (tag == 'G') {
             int mode, pk, pdir, n; long scale, xb, yb;
             in >> mode >> scale >> xb >> yb >> pk >> pdir >> n;
+            // modes 10,11,12: as 0,1,2 but every Variable gets id 0 (ids are documentation only, variable.h:51)
+            bool dupids = mode >= 10; if (dupids) mode -= 10;
             Rectangles rs; Variables vs;
             for (int i = 0; i < n; i++) {
                 long a, b, c, d; in >> a >> b >> c >> d;
                 rs.push_back(new Rectangle((double)a / scale, (double)b / scale, (double)c / scale, (double)d / scale));
-                vs.push_back(new Variable(i, 0, 1));
+                vs.push_back(new Variable(dupids ? 0 : i, 0, 1));
             }
             Rectangle::setXBorder((double)xb / scale);
             Rectangle::setYBorder((double)yb / scale);
@@ -103,7 +106,12 @@ int main()
             Rectangle::setXBorder(0); Rectangle::setYBorder(0);
             if (!prime_ok) exc += 10;
             printf("C %d %zu", exc, cs.size());
-            for (size_t i = 0; i < cs.size(); i++) printf(" %d %d %a", cs[i]->left->id, cs[i]->right->id, cs[i]->gap);
+            for (size_t i = 0; i < cs.size(); i++) {
+                // report variables by their index in vars (== id unless the duplicate-id mode is on)
+                int li = (int)(std::find(vs.begin(), vs.end(), cs[i]->left) - vs.begin());
+                int ri = (int)(std::find(vs.begin(), vs.end(), cs[i]->right) - vs.begin());
+                printf(" %d %d %a", li, ri, cs[i]->gap);
+            }
             printf(" D");
             for (int i = 0; i < n; i++) printf(" %a", vs[i]->desiredPosition);
             if (exc == 3) printf(" # %s", what.c_str());
